@@ -147,6 +147,24 @@ def random_network(rng, quick=True, force=None):
                 a, b = (name, other) if rev else (other, name)
                 spec["valves"].append({"name": ln, "start": a, "end": b, "diam": 0.3, "type": "TCV", "setting": _r(rng, 1, 50, 1),
                                        "minor_loss": rng.choice([0.0, 2.5])})
+    # a reservoir whose head follows a pattern, joined by a plain pipe directly to a tank, with pattern_start != 0: the head the
+    # limit controls see (store_results_in_network) and the head the model solves with (source_head_param) must be the same one
+    if force.get("reservoir_pattern", rng.random() < 0.3):
+        tk = rng.choice(spec["tanks"])
+        k = rng.choice([2, 4, 6])
+        lo, hi = round(tk["elev"] + tk["min"] - rng.uniform(2, 8), 2), round(tk["elev"] + tk["max"] + rng.uniform(2, 8), 2)
+        vals = [hi] * k + [lo] * k if rng.random() < 0.5 else [lo] * k + [hi] * k
+        base = max(vals)
+        spec["patterns"]["rpat"] = [round(v / base, 6) for v in vals]
+        spec["reservoirs"].append({"name": "RP", "head": base, "pattern": "rpat"})
+        spec["pipes"].append({"name": "PRP", "start": "RP", "end": tk["name"], "length": _r(rng, 300, 900, 1), "diam": rng.choice([0.15, 0.2, 0.25]),
+                              "rough": 100.0, "cv": False, "status": "OPEN"})
+        spec["options"]["pattern_start"] = rng.choice([0, k, k, 1, 3]) * spec["options"]["pattern_timestep"]
+    elif rng.random() < 0.3:
+        spec["options"]["pattern_start"] = rng.choice([1, 2, 5]) * spec["options"]["pattern_timestep"]
+    # the piecewise Hazen-Williams approximation (a run_sim argument): closures must reach the model there too
+    if force.get("piecewise", rng.random() < 0.3):
+        spec["options"]["hw_approx"] = "piecewise"
     # rarely used hydraulic options that must not shift the reported state away from what the controls see
     if force.get("odd_options", rng.random() < 0.5):
         spec["options"]["specific_gravity"] = rng.choice([0.8, 1.2, 1.0])
@@ -428,6 +446,21 @@ def two_threshold_spec(curve=False, same_tank=True):
     return spec
 
 
+def reservoir_pattern_spec(hw_approx="default"):
+    """seeded/C06-9: a tank fed by gravity from a reservoir whose head follows a pattern (40 m / 20 m, six hours each),
+    pattern_start = 6 h (the run starts in the low half): the tank drains to min_level and must stop there"""
+    s = _base(3600, 12)
+    s["options"]["pattern_start"] = 6 * 3600
+    s["options"]["hw_approx"] = hw_approx
+    s["patterns"]["lake"] = [1.0] * 6 + [0.5] * 6
+    s["reservoirs"].append({"name": "R", "head": 40.0, "pattern": "lake"})
+    s["tanks"].append({"name": "T", "elev": 30.0, "init": 3.0, "min": 1.0, "max": 5.0, "diam": 12.0, "curve": None})
+    s["junctions"].append({"name": "J", "elev": 5.0, "demand": 0.004, "pattern": None})
+    s["pipes"] += [{"name": "PR", "start": "R", "end": "T", "length": 800.0, "diam": 0.25, "rough": 100.0, "cv": False, "status": "OPEN"},
+                   {"name": "PJ", "start": "T", "end": "J", "length": 300.0, "diam": 0.25, "rough": 100.0, "cv": False, "status": "OPEN"}]
+    return s
+
+
 def overflow_spec(overflow=True):
     """seeded/C06-6: a tank with the overflow flag driven to max_level: the max-level controls must still stop it"""
     s = _base(3600, 4)
@@ -592,8 +625,10 @@ def build_wn(wntr, spec, report="ALL"):
         wn.add_pattern(n, list(m))
     for n, c in spec["curves"].items():
         wn.add_curve(n, c["type"], [tuple(p) for p in c["points"]])
+    if o.get("pattern_start"):
+        wn.options.time.pattern_start = o["pattern_start"]
     for r in spec["reservoirs"]:
-        wn.add_reservoir(r["name"], base_head=r["head"])
+        wn.add_reservoir(r["name"], base_head=r["head"], head_pattern=r.get("pattern"))
     for j in spec["junctions"]:
         wn.add_junction(j["name"], base_demand=j["demand"], demand_pattern=j["pattern"], elevation=j["elev"])
     for t in spec["tanks"]:
@@ -713,7 +748,7 @@ def run_instrumented(spec, report="ALL", wn=None, keep_wn=False):
         with _w.catch_warnings():
             _w.simplefilter("ignore")
             try:
-                sim0.run_sim()
+                sim0.run_sim(HW_approx=spec["options"].get("hw_approx", "default"))
             except Exception:  # noqa -- the first run is only there to give the simulator object a history
                 pass
         wn.reset_initial_values()
@@ -928,7 +963,7 @@ def run_instrumented(spec, report="ALL", wn=None, keep_wn=False):
 
         with warnings.catch_warnings():
             warnings.simplefilter("ignore")
-            res = sim.run_sim()
+            res = sim.run_sim(HW_approx=spec["options"].get("hw_approx", "default"))
         tr.results = res
         if res.error_code is not None:
             tr.error = "error_code"
